@@ -196,6 +196,10 @@ def gamma2(tier, seed):
     # a ranged repetition INSIDE the argument of a $not (followed by something): every run length counts
     for kind, mk, plain in bodies[:4]:
         out.append({"id": f"g2/{kind}/inside_not", "doc": doc_of(["push", {"$not": [{"$and": [mk({"min": 1, "max": 3}), "ret"]}]}, "call"]), "feature": f"times_{kind}_inside_not", "lemmas": ("AEM", "EA", "NE", "VAL")})
+    # the sibling-key spelling for an operand-less item: the body is an empty list / empty mapping (the only way to write it)
+    for t_ in (2, 3, {"min": 0, "max": 2}, {"min": 1, "max": 2}):
+        for nm, body in (("list", []), ("map", {})):
+            out.append({"id": f"g2/item_empty_body_{nm}/{t_}", "doc": doc_of(["push", {"mov": body, "times": t_}, "ret"]), "pattern": ["push", {"mov": {"times": t_}}, "ret"], "feature": "times_item_sib_empty_body"})
     # full-match flags do not interact with repetition
     out.append({"id": "g2/item/fm", "doc": doc_of(["push", {"mov": ["a"], "times": {"min": 0, "max": 2}}, "ret"], True, True), "feature": "times_item_sib"})
     for mf, of in ((True, False), (False, True)):
